@@ -264,6 +264,8 @@ def call(X, st, name, args, kwargs):
         return [Res(st, new_arr(st, n.t, lambda i: VFl(Fl.const(1.0)), "float"))]
     if name == "all":
         a = args[0]
+        if isinstance(a, VBool):
+            return [Res(st, a)]
         o = read(st, a)
         i = z3.Int(f"npall!{core.uid()}")
         b = st.forall(i, z3.And(i >= 0, i < o.length), o.elem(i).t, equiv=True, name="np.all", base_only=True)
